@@ -48,7 +48,7 @@ var propPlans = []propPlan{
 		NotDecided: "'promptly' as a time bound; disk I/O latency under the lock.",
 		LevelText:  "Every waiter leaves on a closed flag that Close sets under the lock before broadcasting; no lock leaks on any path; every owned file is released. Argued sufficient (DESIGN 4, C07) for the sub-statement 'every blocked request completes non-200 after Close, no lock left held, every created file removed' under every interleaving, given monitor semantics."},
 	{ID: "C08", Title: "One writer + concurrent readers",
-		Rules:      []string{"CG0", "L1", "L3", "L4", "L5", "L6", "L8", "P1", "P2", "V4b"},
+		Rules:      []string{"CG0", "L1", "L3", "L4", "L5", "L5b", "L6", "L8", "P1", "P2", "V4b", "V4d"},
 		NotDecided: "absence of every panic (nil dereferences are not modelled); single-playlist invariants of a snapshot; monotonic views.",
 		LevelText:  "Every location shared between writer and request goroutines is co-locked or frozen before publication (lockset + ownership analysis over all contexts); no zero divisor in handler code."},
 	{ID: "C09", Title: "A Client reading a Muxer",
